@@ -251,6 +251,13 @@ def setItem (g : Game α) (prof : List Nat) (vals : List α) : Game α :=
     let A := g.player i
     ⟨A.shape, A.data.set (flatIndex A.shape (rotL i prof)) (vals.getD i 0)⟩⟩
 
+/-- `g.players[i].payoff_array[idx] = v` (equivalently through `g.payoff_arrays[i]`): an in-place
+    edit of ONE player's array by the caller, between calls -/
+def pokeItem (g : Game α) (i : Nat) (idx : List Nat) (v : α) : Game α :=
+  ⟨(List.range g.N).map fun j =>
+    let A := g.player j
+    if j = i then ⟨A.shape, A.data.set (flatIndex A.shape idx) v⟩ else A⟩
+
 /-- axis of player `i`'s array that belongs to player `pidx`: NumPy's normalisation of
     `player_idx - i` -/
 def normAxis (ax : Int) (nd : Nat) : Option Nat :=
@@ -350,6 +357,7 @@ inductive Op (α : Type) where
   | set (prof : List Int) (vals : List α)
   | del (pidx : Int) (action : Int)
   | delm (pidx : Int) (actions : List Int)
+  | poke (i : Nat) (idx : List Nat) (v : α)
   | pv (i : Nat) (opps : List (Act α))
   | br (i : Nat) (opps : List (Act α)) (tol : α) (pert : Option (List α))
   | isbr (i : Nat) (own : Act α) (opps : List (Act α)) (tol : α)
@@ -431,6 +439,9 @@ def step (g : Game α) : Op α → Game α × Out α
         match g.deleteAction pidx' a with
         | .ok g' => (g', .none)
         | .error e => (g, .err e)
+  | .poke i idx v =>
+    if i < g.N ∧ inBounds (g.player i).shape idx = true then (g.pokeItem i idx v, .none)
+    else (g, .err .index)
   | .delm pidx actions =>
     let pidx' : Int := if -(g.N : Int) ≤ pidx ∧ pidx < 0 then pidx + g.N else pidx
     match Game.normAxis pidx' g.N with
@@ -521,6 +532,9 @@ def parseOp? (s : String) : Option (Op Rat) :=
     let v ← parseList? parseRat? v
     pure (Op.set p v)
   | ["del", p, a] => do pure (Op.del (← parseInt? p) (← parseInt? a))
+  | ["poke", i, idx, v] => do
+    pure (Op.poke (← parseNat? i) (← parseList? parseNat? idx) (← parseRat? v))
+  | ["settol", _] => some Op.logit   -- reassigning `player.tol`: no payoff changes
   | ["delm", p, a] => do pure (Op.delm (← parseInt? p) (← parseList? parseInt? a))
   | ["pv", i, o] => do pure (Op.pv (← parseNat? i) (← parseActs? o))
   | ["br", i, o, t, pert] => do
